@@ -513,9 +513,12 @@ func (engine) Generate(seed uint64, index int, tier string) json.RawMessage {
 	if r.P(250) {
 		c.Flags.Patterns = []int{npkg - 1 - r.N((npkg+1)/2)}
 	}
-	n := 2 + r.N(12)
+	// quick tier: many short histories (populate under one condition, run
+	// under another; most cache-key defects need one or two changes and the
+	// budget buys few linter runs); thorough tier: long ones as well
+	n := 1 + r.N(5)
 	if tier == "thorough" {
-		n = 2 + r.N(24)
+		n = 1 + r.N(25)
 	}
 	// swarm: per-case weights, first over the categories of the property's
 	// quantifier (so that the many kinds of "edit a file of the target
@@ -621,7 +624,7 @@ func (engine) Minimize(raw json.RawMessage, still func(json.RawMessage) bool) js
 
 func (engine) Describe() batch.Description {
 	return batch.Description{
-		Rule: "each case: a seeded module (3-6 packages with facts flowing through imports: deprecation of functions and methods, purity, nilness; directives; configuration files; optional tests, tagged and per-OS files) and a seeded history of 2-13 (thorough 2-25) steps over {" + strings.Join(ops, ", ") + "}; every step is followed by a linter run on the one shared simulated cache directory (seeded schedule and worker count, persistent simulated clock, Close->Trim included) whose stdout bytes and exit status must equal those of a run of the same state on a fresh cache (FIFO, memoised per state). An evaluation is one simulated linter run; distinct = distinct (kernel event digest, output) pairs of runs on the shared cache; non-trivial = some step reports problems.",
+		Rule: "each case: a seeded module (3-6 packages with facts flowing through imports: deprecation of functions and methods, purity, nilness; directives; configuration files; optional tests, tagged and per-OS files) and a seeded history of 1-5 (thorough 1-25) steps, drawn by category of the quantifier, over {" + strings.Join(ops, ", ") + "}; every step is followed by a linter run on the one shared simulated cache directory (seeded schedule and worker count, persistent simulated clock, Close->Trim included) whose stdout bytes and exit status must equal those of a run of the same state on a fresh cache (FIFO, memoised per state). An evaluation is one simulated linter run; distinct = distinct (kernel event digest, output) pairs of runs on the shared cache; non-trivial = some step reports problems.",
 		Assumptions: []string{
 			"`go list -export` and the compiler are outside the simulator, run once per (source state, flags, environment) and memoised; package hashes are computed by the real loader.computeHash from their real export data",
 			"for states with tests the 'fresh' cache is pre-populated with the standard-library closure of a test binary (computed from a trivial module under the same flags), never with anything of the module under test",
